@@ -53,7 +53,7 @@ ASSUMPTIONS = [
     "per-core field accesses address core 0 of the chip and select the core "
     "through the address",
 ]
-FLOORS = {"discovered_connection_tries": 60, "discovery_from_a_named_chip": 10, "sibling_controller": 10, "signal_by_name": 30, "state_by_name": 20, "led_action": 10, "application_object_reused": 5, "method_call_checked": 500, "twin_compared": 400,
+FLOORS = {"block_left_by_interrupt": 20, "discovered_connection_tries": 60, "discovery_from_a_named_chip": 10, "sibling_controller": 10, "signal_by_name": 30, "state_by_name": 20, "led_action": 10, "application_object_reused": 5, "method_call_checked": 500, "twin_compared": 400,
           "missing_argument_rejected": 40, "stack_restored": 300,
           "exception_exit": 60, "application_stop_signal": 20,
           "connection_choice": 300, "bmp_call_checked": 80}
@@ -622,11 +622,32 @@ def run_application(ctx, A, context, R, where):
     # the block is left normally, by an arbitrary exception, by an error the
     # machine reports for a command of the block (a chip that does not
     # exist), and normally while an earlier machine error is being handled
-    for raising in (False, True, "machine-error", "while-handling"):
+    for raising in (False, True, "machine-error", "while-handling",
+                    "interrupt-body", "interrupt-exit"):
         mark = len(A.net.log)
         before = A.mc.get_context_arguments()
         try:
-            if raising == "while-handling":
+            if raising == "interrupt-exit":
+                # the user interrupts the program (Ctrl-C) while the block's
+                # own stop signal is on its way: the block is left by that
+                # exception, and is left all the same
+                def plan(net, sock, data, n, plan0=A.net.plan):
+                    req = simnet.parse_scp(data)
+                    a2 = struct.unpack_from("<2I", req["body"] + b"\0" * 8)[1]
+                    if req["cmd"] == M.CMD["signal"] and \
+                            (a2 >> 16) & 0xff == 2:
+                        raise KeyboardInterrupt()
+                    return plan0(net, sock, data, n) if plan0 else \
+                        [("ok", 0.0)]
+                plan0_ = A.net.plan
+                A.net.plan = plan
+                try:
+                    with A.mc.application(app):
+                        inside = A.mc.get_context_arguments()
+                        A.mc.send_signal("pause")
+                finally:
+                    A.net.plan = plan0_
+            elif raising == "while-handling":
                 try:
                     A.mc.read(0x60000000, 4, 9, 9, 0)
                 except A.sc.SCPError:
@@ -645,10 +666,14 @@ def run_application(ctx, A, context, R, where):
                         finally:
                             # the refused read is not part of the judgement
                             del A.net.log[mark2:]
+                    if raising == "interrupt-body":
+                        raise KeyboardInterrupt()
                     if raising:
                         raise KeyError("boom")
         except (KeyError, A.sc.SCPError):
             pass
+        except KeyboardInterrupt:
+            ctx.hit("block_left_by_interrupt")
         ctx.hit("application_stop_signal")
         check(inside.get("app_id") == app, "application-context",
               repr(inside), **where)
